@@ -37,7 +37,8 @@ Inductive expr :=
 | EReport (h : N * N) (a : expr)            (* e ^= handler *)
 | ERespond (resp : N) (a : expr)            (* e ^ response *)
 | EResp (resp : N)                          (* recover_response_expression *)
-| EPred (p : N * N).
+| EPred (p : N * N)
+| EBre (pattern : list N).                  (* bre("...") *)
 
 Definition C := dir_caseless.
 Definition E := dir_eps.
